@@ -131,7 +131,7 @@ theorem iterP_ne_panic (fk fv : Bytes → Res (Val × Bytes)) (hk : ∀ bs, fk b
 
 theorem decLeaf_hashable (o : Opts) (t : Ty) (bs : Bytes) (v : Val) (r : Bytes) (hs : t.strict = true)
     (he : decLeaf o t bs = .ok (v, r)) : v.hashable = true := by
-  cases t <;> simp [Ty.strict] at hs <;> simp only [decLeaf] at he
+  cases t <;> simp [Ty.strict] at hs <;> simp only [decLeaf, lenLt_eq, decide_eq_true_eq] at he
   case bool => cases bs <;> simp [decLeaf] at he; rw [← he.1]; rfl
   case num p => split at he <;> simp at he; rw [← he.1]; rfl
   case str => split at he <;> (try split at he) <;> simp at he; rw [← he.1]; rfl
